@@ -84,6 +84,9 @@ func genC20(g *Gen, tier string, idx int) *wire.Scenario {
 			d.W, d.H = env.W+7, env.H
 		}
 		sc.Plan = wire.Plan{Policy: "seeded", Class: "S0", Seed: g.Seed(), Disturb: []wire.Disturb{d}, Sites: g.siteSubset(35)}
+		if site == "inputwait" && p%2 == 1 {
+			sc.Plan.TypeWithReport = 1 // the user keeps typing: the next key shares a read with the answer to the watcher's query
+		}
 		sc.X = mustJSON(x)
 		return sc
 	}
@@ -111,6 +114,9 @@ func genC20(g *Gen, tier string, idx int) *wire.Scenario {
 			d.Burst = g.Range(2, 5)
 		}
 		plan.Disturb = append(plan.Disturb, d)
+	}
+	if supported && g.P(40) {
+		plan.TypeWithReport = g.Range(1, 2)
 	}
 	sc.Plan = plan
 	sc.X = mustJSON(x)
@@ -201,7 +207,13 @@ func execC20(x *Ctx, sc *wire.Scenario) *wire.Result {
 	if withComp {
 		window = strings.Replace(window, "while-", "with-completions-while-", 1)
 	}
-	fine := fired == 1 && window == "while-waiting-for-input"
+	burst := false // several signals at once: the watcher runs again while the first redisplay's consequences are processed
+	for _, d := range sc.Plan.Disturb {
+		if d.Burst > 1 {
+			burst = true
+		}
+	}
+	fine := fired == 1 && !burst && window == "while-waiting-for-input"
 	if !fine {
 		for i := range kinds {
 			kinds[i] = strings.TrimSuffix(kinds[i], "*")
